@@ -276,7 +276,7 @@ pub fn modes_for(s: &Suite) -> Vec<(Mode, Direction)> {
 
 /// Call kinds with the backend-level schedule over-represented (it is the only kind that
 /// reaches the mode backend without going through `cipher`'s own batching).
-pub const CALL_KIND_TABLE: [CallKind; 11] = [
+pub const CALL_KIND_TABLE: [CallKind; 12] = [
     CallKind::Block,
     CallKind::Blocks,
     CallKind::Backend,
@@ -285,9 +285,10 @@ pub const CALL_KIND_TABLE: [CallKind; 11] = [
     CallKind::Backend,
     CallKind::BlocksInout,
     CallKind::BlockInout,
-    CallKind::Backend,
+    CallKind::BackendInplace,
     CallKind::BlocksInoutInplace,
     CallKind::Backend,
+    CallKind::BackendInplace,
 ];
 
 /// Byte length classes for messages: 0, < one block, = one block, k blocks, k blocks +- 1, any.
